@@ -15,6 +15,14 @@ func init() {
 				r.Rule("R10c", "COORD-SWITCH-LAST: a function that switches the map forest's TotalRows finishes every translation from the old TotalRows before the store (afterwards the translation is the identity and indexed positions go stale)")
 				checkCoordSwitch(p, r, "R10c")
 			}},
+			{ID: "R10e", Statement: "a rejected block leaves the index intact", Run: func(p *Program, r *Report) {
+				r.Rule("R10e", "REJECT-KEEPS-INDEX: under Modify no removal from a leaf index can be followed, in the same function, by the return of a freshly created (validation) error")
+				checkRejectKeepsIndex(p, r, "R10e")
+			}},
+			{ID: "R10f", Statement: "indexed position is the node's position", Run: func(p *Program, r *Report) {
+				r.Rule("R10f", "INDEX-AT-NODE: every position written to the map forest's leaf index is the position expression of a node-store Put in the same function")
+				checkIndexAtNode(p, r, "R10f")
+			}},
 			{ID: "R10d", Statement: "undo of an addition un-indexes", Run: func(p *Program, r *Report) {
 				r.Rule("R10d", "UNDO-ADD-UNINDEX: in each forest's undo-one-addition function every removal of a node is followed on all paths by the removal of its hash from the leaf index")
 				checkUndoAddUnindex(p, r, "R10d")
